@@ -40,8 +40,10 @@ inline int64_t canon(const Entry & e, int64_t v) { if(e.double_result && std::is
 // a = first argument, b = second argument, c = index of the entry point in the sorted entry list
 void j_returns(Ctx & c, int64_t a, int64_t b, int64_t ei)
   {
-  if(ei < 0 || ei >= (int64_t)ENTRIES.size()) return;
+  if(ei < 0) ei = -(ei + 1);
+  ei %= (int64_t)ENTRIES.size(); // any index selects an entry point (fuzz arm)
   Entry & e = ENTRIES[(size_t)ei];
+  if(!in_domain(e.dom.a, a) || !in_domain(e.dom.b, b)) return;
   for(size_t ci = 0; ci < g_cfgs.size(); ++ci)
     {
     CallRes r = c.call(e.fn.f[ci], a, b);
@@ -52,6 +54,7 @@ void j_diff(Ctx & c, int64_t a, int64_t b, int64_t ei)
   {
   if(ei < 0 || ei >= (int64_t)ENTRIES.size()) return;
   Entry & e = ENTRIES[(size_t)ei];
+  if(!in_domain(e.dom.a, a) || !in_domain(e.dom.b, b)) return;
   int64_t ref[3]; bool have[3] = { false, false, false }; int refci[3] = { 0, 0, 0 };
   for(size_t ci = 0; ci < g_cfgs.size(); ++ci)
     {
